@@ -28,6 +28,9 @@ def run(ctx):
     ctx.each(r12h, ctx, repo)
     from . import c16
 
+    from . import c17 as _c17
+
+    ctx.each(_c17.r17e, ctx, repo)  # sampling adds noise to the stored deltas: with zero uncertainty the stored explicit outcomes stay relative to the baseline
     ctx.each(c16.cache_refresh_rule, ctx, repo, "R12i")
     ctx.each(c16.r16a, ctx, repo, K.types(repo))  # the weighted average is computed from a cache of deltas: it must follow every edit of baseline / outcomes
 
